@@ -17,7 +17,7 @@ NA = {
     'C18': 'dump-then-parse fidelity is a function of the tree; the stream/file arguments are incidental and nothing is promised about partial writes',
     'C19': 'copy/pickle fidelity is a function of the tree; nothing is promised about truncated pickles or concurrent mutation',
 }
-PLANNED = ['C15']
+PLANNED = []
 
 CHECKS = {
     'C20': {
@@ -40,6 +40,11 @@ CHECKS = {
         'note': 'CPython 3.12.1 only; programs contain no ";" and no class bodies reading config names; process-wide default eval symbols are treated as client configuration and reset by the client between builds',
         'technique': 'deterministic simulation: seeded build histories / thread schedules in forked processes (crash = child death), native exec/eval reference namespace per build',
         'ref': 'DESIGN.md 4 (C12)'},
+    'C15': {
+        'text': 'determinism harness pointed at the library: a document sequence is built in a pristine forked process and re-built (a) twice in a row after a seeded prior process history of other builds, some failing in parsing / merging / evaluation, (b) in a fresh thread of such a process, (c) under garbage-collector and allocation perturbation at seeded execution points (address reuse), (d) in interpreters started with other PYTHONHASHSEED values; evaluated config (key order included) and merged tree (flags included) must be equal. The four relational laws of the statement (repeat last document, insert {} at every position, permute keys of every mapping, mark untagged nodes !unsafe / !new) are checked on the same scenarios as related builds. Sampling, not proof.',
+        'note': 'explicit !del only on non-empty containers (the remove-this-key idiom is excluded by the statement); documents hold no dynamic nodes; one recorded known finding (idempotence with priority tags on/inside lists over several documents)',
+        'technique': 'deterministic simulation: seeded process histories, thread placement, GC/allocation perturbation and PYTHONHASHSEED re-execution with equality-of-related-builds oracle',
+        'ref': 'DESIGN.md 3.5, 4 (C15)'},
     'C17': {
         'text': 'seeded search over operation-and-fault histories on a two-copy store (built-in dict/list storage vs child map): a Hypothesis stateful machine (one PRNG value per simulated run, database off) generates and shrinks sequences of all listed public mutators with in-range / out-of-range / negative / non-integer indices, missing and forbidden keys, unconvertible values, iterators that raise after k items and mappings whose items() raises; after every step a plain dict/list model and the cross-view invariants (same keys, same order, same objects, every entry a node, children 0..n-1, walk==lookup, path text round trip, evaluation == model) are checked; a failed operation must leave the pre-state or, for extend/update, a prefix. Sampling, not proof.',
         'note': 'no asynchronous exceptions are injected; slices/sort/reverse/+=/popitem are outside the statement; operations without a Python-defined result (set_child beyond the end of a list, rename_child) are checked against the invariants only',
